@@ -621,7 +621,7 @@ class C17(PropCheck):
     id = 'C17'
     extractors = (stack_kinds.generate,)
     modules = ('WpModel.Props.C17', 'WpModel.Props.C17Paint', 'WpModel.Props.C17Text', 'WpModel.Props.C17Doc',
-               'WpModel.Props.C17Parts',
+               'WpModel.Props.C17Parts', 'WpModel.Props.C17Clip',
                'WpModel.Witness.C17')
     trusted_base = (
         'modelled, not verified: stacking.py (StackingContext.__init__/from_page/from_box, _dispatch, '
@@ -639,6 +639,8 @@ class C17(PropCheck):
         'modelled, not verified: the TableRowGroupBox / TableRowBox / TableColumn(Group)Box branches of '
         'layout_background_layer (painting area, clipped cell boxes) as Model/TablePartBg.lean, tied by the geometric '
         'display list of documents with separated-borders tables',
+        'modelled, not verified: the `clip` rectangle of draw_stacking_context (auto substitution, operands of '
+        'stream.rectangle) as Model/ClipRect.lean, tied by the clip stacks of the geometric display list',
         'modelled, not verified: layout_box_backgrounds (is there a Background, its colour), layout_backgrounds '
         '(canvas background from the root element or its <body> child, chosen_box.background = None, canvas '
         'painting area = page border box) and the guard of gather_anchors (class test: graph of the real function '
@@ -1067,6 +1069,15 @@ GEO_CORPUS = [
     '<table style="border-collapse:separate;border-spacing:0;font-family:weasyprint"><tbody style="background:#000004">'
     '<tr><td style="height:20px;width:30px;color:#000009">a</td></tr>'
     '<tr><td style="height:20px;color:#00000d">b</td></tr></tbody></table>',
+    # the `clip` rectangle: lengths, `auto` on every side, and the known finding (one of left / right `auto`)
+    '<div style="position:absolute;top:20px;left:40px;width:50px;height:40px;clip:rect(5px,30px,20px,10px);'
+    'background:#000004;color:#000005;font-family:weasyprint">cl</div>'
+    '<div style="position:absolute;top:80px;left:40px;width:50px;height:40px;clip:rect(auto,auto,auto,auto);'
+    'background:#000008;color:#000009;font-family:weasyprint">au</div>'
+    '<div style="position:fixed;top:140px;left:40px;width:50px;height:40px;clip:rect(auto,30px,25px,2px);'
+    'border:3px solid #00000e;background:#00000c;color:#00000d;font-family:weasyprint">tb</div>'
+    '<div style="position:absolute;top:200px;left:40px;width:50px;height:40px;clip:rect(0px,auto,auto,10px);'
+    'background:#000010;color:#000011;font-family:weasyprint">sw</div>',
     # right-to-left table: the first cell of a column group is its rightmost
     '<table style="direction:rtl;border-collapse:separate;border-spacing:4px;font-family:weasyprint">'
     '<colgroup style="background:#000004"><col style="background:#000008"><col></colgroup><col style="background:#00000c">'
@@ -1077,6 +1088,10 @@ GEO_CORPUS = [
 
 # Known findings of the geometry clauses (judged by check_geometry).
 GEO_FINDINGS = {
+    'clip-auto-sides-swapped':
+        '<div style="position:absolute;top:20px;left:40px;width:50px;height:40px;clip:rect(0px,auto,auto,10px);'
+        'background:#000004;color:#000005">sw</div>',
+
     'row-group-background-first-row-only':
         '<table style="border-collapse:separate;border-spacing:0"><tbody style="background:#000004">'
         '<tr><td style="height:20px;width:30px;color:#000009">a</td></tr>'
@@ -1121,6 +1136,6 @@ MANIFEST = {
             'Page.paint = draw_page on that result.',
     'note': 'Trusted: Lean kernel, the class-test extractor, the export of a laid-out page (attributes, geometry), the '
             'content-stream interpreter, the PDF-reader side of the ToUnicode check. Not modelled: rotate/skew '
-            'trigonometry, border side segments and dashed/double styles, outlines\' geometry, collapsed borders, images and gradients, font embedding. Five known findings are listed in '
+            'trigonometry, border side segments and dashed/double styles, outlines\' geometry, collapsed borders, images and gradients, font embedding. Six known findings are listed in '
             'known_findings.txt.',
 }
